@@ -805,6 +805,7 @@ main(int argc, char **argv)
 	// no puller connected at the start: each dials at its first receive
 	static seqarg s_late  = { 0, -1, 8, 0, L_CORE, 1, NULL, 0, 1 };
 
+	double wrem = 1;
 	if (!T) {
 		explore_seq("inproc-full0", &s_full0, 3, 3, 1);
 		explore_seq("inproc-full2", &s_full2, 3, 3, 1);
@@ -814,13 +815,23 @@ main(int argc, char **argv)
 		explore_seq("raw-tinybuf-waiters", &s_raww, 3, 3, 1);
 		explore_seq("inproc-late", &s_late, 4, 3, 0.1);
 	} else {
-		explore_seq("inproc-full0", &s_full0, 5, 4, 0.06);
-		explore_seq("inproc-full2", &s_full2, 5, 4, 0.06);
-		explore_seq("inproc-waiters", &s_wait, 5, 4, 0.06);
-		explore_seq("raw", &s_raw, 5, 4, 0.04);
-		explore_seq("raw-tinybuf-full0", &s_rawf, 5, 4, 0.04);
-		explore_seq("raw-tinybuf-waiters", &s_raww, 5, 4, 0.04);
-		explore_seq("inproc-late", &s_late, 6, 5, 0.05);
+		// each run gets its weight's share of the time that is still left
+		// (weights: 7 small runs 1 each, schedules 4, the two deep runs 6
+		// each), so what earlier runs did not use carries over
+		wrem = 7 + 4 + 12;
+#define SHARE(w) ((w) / wrem * (g_cap - used()) / g_cap)
+#define RUN(nm, a, dmax, dmin, w)                          \
+	do {                                               \
+		explore_seq(nm, a, dmax, dmin, SHARE(w));  \
+		wrem -= (w);                               \
+	} while (0)
+		RUN("inproc-full0", &s_full0, 5, 4, 1.0);
+		RUN("inproc-full2", &s_full2, 5, 4, 1.0);
+		RUN("inproc-waiters", &s_wait, 5, 4, 1.0);
+		RUN("raw", &s_raw, 5, 4, 1.0);
+		RUN("raw-tinybuf-full0", &s_rawf, 5, 4, 1.0);
+		RUN("raw-tinybuf-waiters", &s_raww, 5, 4, 1.0);
+		RUN("inproc-late", &s_late, 6, 5, 1.0);
 	}
 
 	// (3) schedules: blocking sender(s) || puller becoming ready.
@@ -835,6 +846,8 @@ main(int argc, char **argv)
 			explore_race(&RC[i], 1, 2);
 			explore_race(&RC[i], 1, 1);
 		}
+		explore_seq("inproc", &s_init, T ? 6 : 4, T ? 5 : 3, 1);
+		explore_seq("inproc-core", &s_core, T ? 7 : 5, T ? 6 : 4, 1);
 	} else if (!T) {
 		explore_race(&RC[0], 1, 2);
 		explore_race(&RC[1], 1, 2);
@@ -845,11 +858,12 @@ main(int argc, char **argv)
 		explore_seq("inproc-core", &s_core, 5, 4, 0.35);
 	} else {
 		double rr = g_rate * 0.7; // schedule runs are a little slower
+		double rb = SHARE(4.0) * g_cap, r0 = used();
 		for (int i = 0; i < 6; i++) {
 			int    m0   = RC[i].mode == 0;
 			double big  = (m0 ? 40000.0 : 200000.0) * RC[i].nsenders;
 			double mid  = (m0 ? 3000.0 : 25000.0) * RC[i].nsenders;
-			double room = 0.07 * g_cap;
+			double room = (rb - (used() - r0)) / (6 - i);
 			if (big / rr < room)
 				explore_race(&RC[i], 2, 3);
 			else if (mid / rr < room)
@@ -857,11 +871,10 @@ main(int argc, char **argv)
 			else
 				explore_race(&RC[i], 1, m0 ? 2 : 1);
 		}
+		wrem -= 4;
 		// the two deepest enumerations get what is left
-		double left = (g_cap - used()) / g_cap;
-		explore_seq("inproc", &s_init, 6, 5, left * 0.45);
-		left = (g_cap - used()) / g_cap;
-		explore_seq("inproc-core", &s_core, 7, 6, left * 0.9);
+		RUN("inproc", &s_init, 6, 5, 6.0);
+		RUN("inproc-core", &s_core, 7, 6, 6.0);
 	}
 
 	vx_note("alphabet",
